@@ -1,3 +1,421 @@
-/- C12: property theorems (stub — not built yet) -/
+import RSVerif.Lemmas.Rdb12
+import RSVerif.Generated.C12Consts
+/-
+C12 — Value and RDB-file serialisation round-trips through the parser.
+Property theorems only (helper lemmas: RSVerif.Lemmas.Rdb12). Models: Model/RdbEncode (encoders, file writer),
+Model/RdbDecode (cupcake decoder + adaptor = rdb.DecodeDump), Model/RdbRead (the loader), Spec/Compact (Redis' formats).
+`fmt`/`pf` are strconv.FormatFloat(·,'g',17,64) / ParseFloat as parameters under the hypothesis `FloatText` (never proved).
+-/
 namespace RSVerif.Properties.C12
+open RSVerif RSVerif.Rdb RSVerif.RdbDecode RSVerif.RdbEncode RSVerif.Spec.Compact RSVerif.Lemmas.Rdb12
+
+/-! ### 0. the numerals of the models are the constants of the source (regenerated on every run) -/
+
+/-- type codes, length-form tags, string-encoding tags, ziplist headers, opcodes and the trailer version, as
+    `go/factgen/c12.go` reads them from pkg/libs/cupcake/rdb/{decoder,encoder}.go and pkg/rdb/reader.go NOW, are the
+    numerals written in Model/RdbDecode.lean, Model/RdbEncode.lean and Spec/Compact.lean -/
+theorem consts_tie :
+    Generated.C12.typeString = 0 ∧ Generated.C12.typeList = 1 ∧ Generated.C12.typeSet = 2 ∧ Generated.C12.typeZSet = 3 ∧
+    Generated.C12.typeHash = 4 ∧ Generated.C12.typeZSet2 = 5 ∧ Generated.C12.typeModule = 6 ∧
+    Generated.C12.typeHashZipmap = 9 ∧ Generated.C12.typeListZiplist = 10 ∧ Generated.C12.typeSetIntset = 11 ∧
+    Generated.C12.typeZSetZiplist = 12 ∧ Generated.C12.typeHashZiplist = 13 ∧ Generated.C12.typeListQuicklist = 14 ∧
+    Generated.C12.len6bit = 0 ∧ Generated.C12.len14bit = 1 ∧ Generated.C12.len32bit = 0x80 ∧ Generated.C12.len64bit = 0x81 ∧
+    Generated.C12.encVal = 3 ∧ Generated.C12.encInt8 = 0 ∧ Generated.C12.encInt16 = 1 ∧ Generated.C12.encInt32 = 2 ∧
+    Generated.C12.encLZF = 3 ∧
+    Generated.C12.flagExpiryMS = 0xFC ∧ Generated.C12.flagSelectDB = 0xFE ∧ Generated.C12.flagEOF = 0xFF ∧
+    Generated.C12.zl6bitStr = 0 ∧ Generated.C12.zl14bitStr = 1 ∧ Generated.C12.zl32bitStr = 2 ∧
+    Generated.C12.zlInt16 = 0xC0 ∧ Generated.C12.zlInt32 = 0xD0 ∧ Generated.C12.zlInt64 = 0xE0 ∧
+    Generated.C12.zlInt24 = 0xF0 ∧ Generated.C12.zlInt8 = 0xFE ∧ Generated.C12.zlInt4 = 15 ∧
+    Generated.C12.encoderVersion = (encVersion.toNat : Int) ∧ Generated.C12.encoderVersion = Generated.cupcakeVersion ∧
+    Generated.C12.pkgTypeString = (typeOf (.str [])).toNat ∧ Generated.C12.pkgTypeList = (typeOf (.list [])).toNat ∧
+    Generated.C12.pkgTypeSet = (typeOf (.set [])).toNat ∧ Generated.C12.pkgTypeZSet = (typeOf (.zset [])).toNat ∧
+    Generated.C12.pkgTypeHash = (typeOf (.hash [])).toNat := by decide
+
+/-! ### 1. DUMP round trip of logical values -/
+
+/-- reading back what `encodeValue` wrote, with anything after it left untouched -/
+theorem value_roundtrip (fixed : Bool) (fmt : UInt64 → Bytes) (pf : Bytes → Option UInt64) (hft : FloatText fmt pf)
+    (v : LValue) (hv : Sized v) (rest : Bytes) :
+    decodeValueG fixed pf (typeOf v) (encValue fmt v ++ rest) = .ok (normValue v) := by
+  cases v with
+  | str s =>
+    simp only [Sized] at hv
+    simp [decodeValueG, readObject, typeOf, encValue, cReadString_encString s hv rest, done, adapt_set, normValue,
+      Except.map]
+  | list xs =>
+    simp only [Sized] at hv
+    have h := counted_flatMap cReadString encString id xs hv.1 (fun x hx r => cReadString_encString x (hv.2 x hx) r) rest
+    simp only [List.map_id, List.append_assoc] at h
+    simp [decodeValueG, readObject, typeOf, encValue, h, done, adapt_list, normValue, Except.map]
+  | set xs =>
+    simp only [Sized] at hv
+    have h := counted_flatMap cReadString encString id xs hv.1 (fun x hx r => cReadString_encString x (hv.2 x hx) r) rest
+    simp only [List.map_id, List.append_assoc] at h
+    simp [decodeValueG, readObject, typeOf, encValue, h, done, adapt_setv, normValue, Except.map]
+  | hash fvs =>
+    simp only [Sized] at hv
+    have h := counted_flatMap (pairR cReadString cReadString) (fun (p : Bytes × Bytes) => encString p.1 ++ encString p.2) id
+      fvs hv.1 (fun p hp r => by
+        obtain ⟨f, v⟩ := p
+        exact pairR_ok cReadString cReadString (encString f) (encString v) r f v
+          (fun r' => cReadString_encString f (hv.2 _ hp).1 r') (cReadString_encString v (hv.2 _ hp).2 r)) rest
+    simp only [List.map_id, List.append_assoc] at h
+    simp only [decodeValueG, readObject, typeOf, encValue]
+    simp [h, done, adapt_hash', normValue, Except.map]
+  | zset ms =>
+    simp only [Sized] at hv
+    have h := counted_flatMap (pairR cReadString (cReadFloat pf)) (fun (p : Bytes × UInt64) => encString p.1 ++ encFloat fmt p.2)
+      (fun p => (p.1, normScore p.2))
+      ms hv.1 (fun p hp r => by
+        obtain ⟨m, s⟩ := p
+        exact pairR_ok cReadString (cReadFloat pf) (encString m) (encFloat fmt s) r m (normScore s)
+          (fun r' => cReadString_encString m (hv.2 _ hp) r') (cReadFloat_encFloat fmt pf hft s r)) rest
+    simp only [List.append_assoc] at h
+    simp only [decodeValueG, readObject, typeOf, encValue]
+    simp [h, done, normValue, Except.map]
+    simpa [List.map_map, Function.comp_def] using adapt_zset' (ms.map fun p => (p.1, normScore p.2))
+
+
+/-- `dump_roundtrip`: DecodeDump (EncodeDump v) = v for EVERY logical value — arbitrary bytes, integer-looking strings at
+    every boundary (the proof goes through the encoder's own canonical test, not through ParseInt), element order kept;
+    ±Inf by tag, NaN by tag (comes back as `math.NaN()`), finite scores through the text codec (`FloatText`). -/
+theorem dump_roundtrip (fmt : UInt64 → Bytes) (pf : Bytes → Option UInt64) (hft : FloatText fmt pf)
+    (v : LValue) (hv : Sized v) :
+    decodeDump pf (encodeDump fmt v) = .ok (normValue v) := by
+  unfold decodeDump encodeDump
+  rw [decodeDumpG_footer]
+  exact value_roundtrip true fmt pf hft v hv _
+
+/-- the pinned tree (before the zipmap repair) satisfies the same statement: plain types do not touch that reader -/
+theorem dump_roundtrip_pinned (fmt : UInt64 → Bytes) (pf : Bytes → Option UInt64) (hft : FloatText fmt pf)
+    (v : LValue) (hv : Sized v) :
+    decodeDumpPinned pf (encodeDump fmt v) = .ok (normValue v) := by
+  unfold decodeDumpPinned encodeDump
+  rw [decodeDumpG_footer]
+  exact value_roundtrip false fmt pf hft v hv _
+
+/-- no NaN score ⇒ the very same value comes back (strings, lists, sets, hashes: always) -/
+theorem normValue_id (v : LValue) (h : ∀ ms, v = .zset ms → ∀ p ∈ ms, isNaN p.2 = false) : normValue v = v := by
+  cases v with
+  | zset ms =>
+    simp only [normValue, LValue.zset.injEq]
+    have : ∀ p ∈ ms, (fun (x : Bytes × UInt64) => (x.1, normScore x.2)) p = p := by
+      intro p hp; simp [normScore, h ms rfl p hp]
+    calc ms.map (fun x => (x.1, normScore x.2)) = ms.map id := List.map_congr_left this
+      _ = ms := List.map_id ms
+  | _ => rfl
+
+/-- non-vacuity of `FloatText`: an (artificial) codec satisfying it -/
+example : FloatText le64 (fun t => if t.length = 8 then some (ofLe64 t) else none) :=
+  ⟨fun f _ _ _ => by simp [Lemmas.Bytes.le64_length, Lemmas.Bytes.ofLe64_le64], fun f => by simp [Lemmas.Bytes.le64_length]⟩
+
+/-- non-vacuity of `Sized`, with integer-looking strings at an encoding boundary, a NaN and a negative zero -/
+example : Sized (.zset [([49, 50, 55], 0x7FF8000000000055), ([45, 49, 50, 57], 0x8000000000000000), ([0, 255], negInf)]) := by
+  simp [Sized]
+
+/-! ### 1b. which strings the encoder compacts -/
+
+/-- `encodeIntString` stores a string as an integer exactly when it is the canonical decimal rendering of an int32
+    (so "007", "+5", "-0", " 5", "2147483648" stay raw strings and every canonical int32 text is compacted) -/
+theorem intString_written_iff (s : Bytes) :
+    (encodeIntString s).isSome ↔ ∃ i : Int, -2147483648 ≤ i ∧ i ≤ 2147483647 ∧ s = fmtInt i := by
+  constructor
+  · intro h
+    unfold encodeIntString at h
+    split at h
+    · simp at h
+    · rename_i i hp
+      split at h
+      · simp at h
+      · rename_i hs
+        have hs : s = fmtInt i := by simpa using hs
+        -- parseInt32 only returns values of the int32 range
+        have hr : -2147483648 ≤ i ∧ i ≤ 2147483647 := by
+          unfold parseInt32 at hp
+          have key : ∀ (neg : Bool) (ds : Bytes) (j : Int),
+              (match parseDigits ds with
+                | none => none
+                | some n =>
+                  let i : Int := if neg then - (n : Int) else (n : Int)
+                  if -2147483648 ≤ i ∧ i ≤ 2147483647 then some i else none) = some j →
+              -2147483648 ≤ j ∧ j ≤ 2147483647 := by
+            intro neg ds j hj
+            cases hd : parseDigits ds with
+            | none => simp [hd] at hj
+            | some n =>
+              simp only [hd] at hj
+              by_cases hrange : -2147483648 ≤ (if neg then - (n : Int) else (n : Int)) ∧
+                  (if neg then - (n : Int) else (n : Int)) ≤ 2147483647
+              · rw [if_pos hrange] at hj
+                cases hj; exact hrange
+              · rw [if_neg hrange] at hj
+                cases hj
+          split at hp <;> exact key _ _ _ hp
+        exact ⟨i, hr.1, hr.2, hs⟩
+  · rintro ⟨i, h1, h2, rfl⟩
+    unfold encodeIntString
+    rw [parseInt32_fmtInt i h1 h2]
+    simp only [ne_eq, not_true_eq_false, if_false]
+    by_cases a : -128 ≤ i ∧ i ≤ 127
+    · simp [a]
+    · by_cases b : -32768 ≤ i ∧ i ≤ 32767
+      · simp [a, b]
+      · have c : -2147483648 ≤ i ∧ i ≤ 2147483647 := ⟨h1, h2⟩
+        simp [a, b, c]
+
+/-! ### 2. compact encodings: the decoder returns what Redis would materialise -/
+
+/-- `compact_materialise`: for every well-formed compact tree `c` (ziplist list / sorted set / hash with every entry
+    header and both prevlen forms, intset of each width, zipmap with free bytes and both length forms) stored as ANY
+    well-formed string object `w` — raw with any length form, or LZF with any token stream that expands to the blob —
+    DecodeDump returns `logicalOf c`. (Tree with the zipmap reader repaired, fixes/C12-zipmap-*.patch.) -/
+theorem compact_materialise (pf : Bytes → Option UInt64) (c : Compact) (hc : c.WF)
+    (v : LValue) (hv : logicalOf pf c = some v)
+    (w : RStr) (hw : strOkC w) (hl : Spec.Rdb.logical w = serCompact c) :
+    decodeDump pf (wrapDump w c.type) = .ok v := by
+  unfold decodeDump wrapDump
+  rw [decodeDumpG_footer]
+  exact compact_value true pf c hc (WF_ZmOk c hc) v hv w hw hl _
+
+/-- what IS provable of the pinned tree (deviation D22): the same statement for every compact value except zipmaps
+    holding an item of 253 bytes or more, or 254 pairs or more.
+    Full statement (false of the pinned code): `∀ c, c.WF → … → decodeDumpPinned pf (wrapDump w c.type) = .ok v`. -/
+theorem compact_materialise_pinned_partial (pf : Bytes → Option UInt64) (c : Compact) (hc : c.WF)
+    (hsmall : ∀ ps, c = .zipmap ps → ps.length < 254 ∧ ∀ p ∈ ps, p.k.length < 253 ∧ p.v.length < 253)
+    (v : LValue) (hv : logicalOf pf c = some v)
+    (w : RStr) (hw : strOkC w) (hl : Spec.Rdb.logical w = serCompact c) :
+    decodeDumpPinned pf (wrapDump w c.type) = .ok v := by
+  unfold decodeDumpPinned wrapDump
+  rw [decodeDumpG_footer]
+  refine compact_value false pf c hc ?_ v hv w hw hl _
+  cases c with
+  | zipmap ps =>
+    obtain ⟨hn, hp⟩ := hsmall ps rfl
+    exact ⟨fun p hpp => ⟨Or.inl (hp p hpp).1, Or.inl (hp p hpp).2, (hc.1 p hpp).2.2⟩, Or.inl hn⟩
+  | _ => trivial
+
+/-- quicklists: a count in any length form, then one string object per node, each holding a ziplist -/
+theorem quicklist_materialise (pf : Bytes → Option UInt64) (cf : LenForm) (ns : List QNode) (h : qlWF cf ns) :
+    decodeDump pf (quicklistDump cf ns) = .ok (qlLogical ns) := by
+  unfold decodeDump quicklistDump
+  rw [decodeDumpG_footer]
+  obtain ⟨⟨hf, h32⟩, hn⟩ := h
+  have t : (14 : UInt8).toNat = 14 := by decide
+  simp only [decodeValueG, readObject, t]
+  simp only [serQuicklist, List.append_assoc, cReadLength_encLen _ hf h32, qlNodes_ser ns hn]
+  simp only [Except.map, qlLogical]
+  exact adapt_list _
+
+/-! ### 3. Deviation D22 — the pinned zipmap reader (marker 253 / big endian / rewind onto the count byte)
+
+Kernel-checked witnesses: on each, the pinned reader fails while the repaired reader returns what Redis materialises.
+Replayed on the real decoder by `./check C12` (cases `cmp 9 …` with item lengths 253, 254 and 254 pairs). -/
+
+def pfNone : Bytes → Option UInt64 := fun _ => none
+
+/-- D22 witness 1: one pair whose value is 253 bytes long (Redis writes the literal length byte 253) -/
+def zm253 : Compact := .zipmap [{ k := [102], v := List.replicate 253 118, free := [] }]
+def w253 : RStr := .raw .b14 (serCompact zm253)
+
+theorem counterexample_zipmap_len253 :
+    zm253.WF ∧ strOkC w253 ∧ Spec.Rdb.logical w253 = serCompact zm253 ∧
+    decodeDumpPinned pfNone (wrapDump w253 9) = .error .eof ∧
+    decodeDump pfNone (wrapDump w253 9) = .ok (.hash [([102], List.replicate 253 118)]) := by
+  have hw : strOkC w253 := by
+    refine ⟨?_, ?_⟩ <;> decide +kernel
+  refine ⟨⟨?_, by decide +kernel⟩, hw, rfl, ?_, ?_⟩
+  · intro p hp
+    have : p = { k := [102], v := List.replicate 253 118, free := [] } := List.mem_singleton.mp hp
+    subst this
+    refine ⟨?_, ?_, ?_⟩ <;> decide +kernel
+  · unfold decodeDumpPinned wrapDump
+    rw [decodeDumpG_footer, decodeValueG_blob_rest false pfNone 9 (by simp) w253 hw]
+    decide +kernel
+  · unfold decodeDump wrapDump
+    rw [decodeDumpG_footer, decodeValueG_blob_rest true pfNone 9 (by simp) w253 hw]
+    decide +kernel
+
+/-- D22 witness 2: a value of 254 bytes (Redis: 254 + 4 bytes little endian) is rejected outright -/
+def zm254 : Compact := .zipmap [{ k := [102], v := List.replicate 254 118, free := [] }]
+def w254 : RStr := .raw .b14 (serCompact zm254)
+
+theorem counterexample_zipmap_len254 :
+    zm254.WF ∧ strOkC w254 ∧ Spec.Rdb.logical w254 = serCompact zm254 ∧
+    decodeDumpPinned pfNone (wrapDump w254 9) = .error .zipmapLen ∧
+    decodeDump pfNone (wrapDump w254 9) = .ok (.hash [([102], List.replicate 254 118)]) := by
+  have hw : strOkC w254 := by
+    refine ⟨?_, ?_⟩ <;> decide +kernel
+  refine ⟨⟨by decide +kernel, by decide +kernel⟩, hw, rfl, ?_, ?_⟩
+  · unfold decodeDumpPinned wrapDump
+    rw [decodeDumpG_footer, decodeValueG_blob_rest false pfNone 9 (by simp) w254 hw]
+    decide +kernel
+  · unfold decodeDump wrapDump
+    rw [decodeDumpG_footer, decodeValueG_blob_rest true pfNone 9 (by simp) w254 hw]
+    decide +kernel
+
+/-- D22 witness 3: 254 pairs (count byte saturated at 254): the counting pass rewinds onto the count byte -/
+def zmPairs254 : Compact := .zipmap ((List.range 254).map fun i => { k := [UInt8.ofNat i], v := [], free := [] })
+def wCount254 : RStr := .raw .b14 (serCompact zmPairs254)
+
+theorem counterexample_zipmap_count254 :
+    zmPairs254.WF ∧ strOkC wCount254 ∧ Spec.Rdb.logical wCount254 = serCompact zmPairs254 ∧
+    decodeDumpPinned pfNone (wrapDump wCount254 9) = .error .zipmapLen ∧
+    decodeDump pfNone (wrapDump wCount254 9) = .ok (.hash ((List.range 254).map fun i => ([UInt8.ofNat i], []))) := by
+  have hw : strOkC wCount254 := by
+    refine ⟨?_, ?_⟩ <;> decide +kernel
+  refine ⟨⟨by decide +kernel, by decide +kernel⟩, hw, rfl, ?_, ?_⟩
+  · unfold decodeDumpPinned wrapDump
+    rw [decodeDumpG_footer, decodeValueG_blob_rest false pfNone 9 (by simp) wCount254 hw]
+    decide +kernel
+  · unfold decodeDump wrapDump
+    rw [decodeDumpG_footer, decodeValueG_blob_rest true pfNone 9 (by simp) wCount254 hw]
+    decide +kernel
+
+/-! ### 4. plain values as Redis writes them, and the payloads of the tool's own parser -/
+
+/-- `plain_materialise`: types 0–5 with ANY string-object encoding per element (raw in any length form, int8/16/32,
+    LZF with any token stream), counts in any length form; type-3 scores by tag or text; type-5 (`zset2`) scores are the
+    eight little-endian bytes, bit-exact for all 2^64 patterns (−0, NaNs with payload included). -/
+theorem plain_materialise (pf : Bytes → Option UInt64) (v : Spec.Rdb.Value) (hok : plainOk pf v)
+    (lv : LValue) (hl : plainLogical pf v = some lv) :
+    decodeDump pf (withDumpFooter (v.type :: Spec.Rdb.serValue v)) = .ok lv := by
+  unfold decodeDump
+  rw [decodeDumpG_footer]
+  exact plain_value true pf v hok lv hl _
+
+/-- zset2 is exact on every bit pattern: the score that comes back is the score that was written -/
+theorem zset2_exact (pf : Bytes → Option UInt64) (n : LenForm) (ms : List (RStr × UInt64))
+    (hc : cntOkC n ms.length) (hs : ∀ p ∈ ms, strOkC p.1) :
+    decodeDump pf (withDumpFooter (5 :: Spec.Rdb.serValue (.zset2 n (ms.map fun p => (p.1, le64 p.2))))) =
+      .ok (.zset (ms.map fun p => (Spec.Rdb.logical p.1, p.2))) := by
+  have := plain_materialise pf (.zset2 n (ms.map fun p => (p.1, le64 p.2)))
+    ⟨by simpa using hc, by
+      intro q hq
+      obtain ⟨p, hp, rfl⟩ := List.mem_map.mp hq
+      exact ⟨hs p hp, Lemmas.Bytes.le64_length _⟩⟩
+    (.zset (ms.map fun p => (Spec.Rdb.logical p.1, p.2)))
+    (by simp [plainLogical, List.map_map, Function.comp_def, Lemmas.Bytes.ofLe64_le64])
+  simpa [Spec.Rdb.Value.type] using this
+
+/-- the payload the tool's own parser (C01: `createValueDump`) delivers for a value is the DUMP payload these theorems
+    are about: same bytes, same trailer -/
+theorem parser_payload (t : UInt8) (body : Bytes) : Dump.createValueDump t body = withDumpFooter (t :: body) := by
+  rw [C01.createValueDump_eq_dumpPayload, dumpPayload_eq]
+
+/-! ### 5. whole files -/
+
+/-- `file_roundtrip`: writing a whole file (header, database selectors when the database changes, expiries, objects,
+    footer) and loading it back with the tool's loader delivers exactly one record per object, in order, with the same
+    database, key, expiry and a payload that decodes to the same value; the footer verifies and nothing after the
+    checksum is consumed. `L` is the loader's chunk limit (values are below it; bigger hashes: C01 `chunks_concat`). -/
+theorem file_roundtrip (fmt : UInt64 → Bytes) (pf : Bytes → Option UInt64) (hft : FloatText fmt pf) (L : Nat)
+    (objs : List Obj) (hok : ∀ o ∈ objs, ObjOk fmt L o) (tail : Bytes) :
+    Rdb.run (fun t => (pf t).isSome) true L Generated.rdbFromVersion (encodeFile fmt objs ++ tail) =
+      (objs.map (entryOf fmt), .ok tail) ∧
+    ∀ o ∈ objs, decodeDump pf (entryOf fmt o).value = .ok (normValue o.val) := by
+  constructor
+  · obtain ⟨hser, hitems⟩ := ser_itemsOf fmt pf hft L objs hok none
+    have hh : fileHeader = Spec.Rdb.hdr 6 := by decide
+    have hfile : encodeFile fmt objs ++ tail =
+        Spec.Rdb.hdr 6 ++ Spec.Rdb.ser (itemsOf fmt none objs) ++ [0xFF] ++
+          le64 (Spec.Crc64.crc64 (Spec.Rdb.hdr 6 ++ Spec.Rdb.ser (itemsOf fmt none objs) ++ [0xFF])) ++ tail := by
+      simp only [encodeFile, hh, hser]
+    rw [hfile, C01.parse_exact (fun t => (pf t).isSome) L Generated.rdbFromVersion 6 (by decide) (by decide) (by decide)
+      (itemsOf fmt none objs) hitems tail, expected_itemsOf fmt pf hft L objs hok none 0 (Or.inl rfl)]
+  · intro o ho
+    exact dump_roundtrip fmt pf hft o.val (hok o ho).1
+
+/-! ### 5b. record conversions -/
+
+theorem encFloat_normScore (fmt : UInt64 → Bytes) (s : UInt64) : encFloat fmt (normScore s) = encFloat fmt s := by
+  unfold normScore
+  by_cases h : isNaN s = true
+  · have hg : isNaN goNaN = true := by decide
+    simp [h, encFloat, hg]
+  · simp [h]
+
+theorem encodeDump_normValue (fmt : UInt64 → Bytes) (v : LValue) : encodeDump fmt (normValue v) = encodeDump fmt v := by
+  cases v with
+  | zset ms =>
+    simp [encodeDump, normValue, typeOf, encValue, List.flatMap_map, encFloat_normScore]
+  | _ => rfl
+
+/-- `BinEntry → ObjEntry → BinEntry` (pkg/rdb/loader.go): decoding a payload the encoder wrote and encoding the result
+    again gives the same bytes (so a record converted forth and back is unchanged) -/
+theorem entry_conversion_roundtrip (fmt : UInt64 → Bytes) (pf : Bytes → Option UInt64) (hft : FloatText fmt pf)
+    (v : LValue) (hv : Sized v) :
+    (decodeDump pf (encodeDump fmt v)).map (encodeDump fmt) = .ok (encodeDump fmt v) := by
+  rw [dump_roundtrip fmt pf hft v hv]
+  simp [Except.map, encodeDump_normValue]
+
+/-! ### 6. non-vacuity: concrete inhabitants of the hypotheses -/
+
+/-- a ziplist with a forced 5-byte prevlen, a negative 24-bit integer, a 4-bit integer and a run of bytes, stored
+    LZF-compressed with an overlapping back-reference -/
+def exList : Compact := .listZl [.str false .s6 [97, 97, 97, 97, 97, 97, 97, 97], .int true .i24 (-32769), .int false .i4 12]
+def exWrap : RStr := .lzf .b6 .b14 [.lit [32, 0, 0, 0, 29, 0, 0, 0, 3, 0, 0, 8, 97], .ref 1 7,
+  .lit [254, 10, 0, 0, 0, 240, 255, 127, 255, 9, 253, 255]]
+
+theorem exWrap_ok : strOkC exWrap := by
+  refine ⟨by decide +kernel, by decide +kernel, by decide +kernel, by decide +kernel, ?_⟩
+  simp [Spec.Rdb.toksOk, Spec.Rdb.tokOk, Spec.Rdb.expandTok, Spec.Rdb.copyFrom]
+
+example : exList.WF ∧ strOkC exWrap ∧ Spec.Rdb.logical exWrap = serCompact exList ∧
+    logicalOf pfNone exList = some (.list [[97, 97, 97, 97, 97, 97, 97, 97], [45, 51, 50, 55, 54, 57], [49, 50]]) := by
+  refine ⟨⟨by decide, by decide⟩, exWrap_ok, by decide +kernel, by decide +kernel⟩
+
+example : decodeDump pfNone (wrapDump exWrap 10) =
+    .ok (.list [[97, 97, 97, 97, 97, 97, 97, 97], [45, 51, 50, 55, 54, 57], [49, 50]]) :=
+  compact_materialise pfNone exList ⟨by decide, by decide⟩ _ (by decide +kernel) exWrap exWrap_ok (by decide +kernel)
+
+/-- a zipmap with free bytes after a value and an empty field name -/
+example : (Compact.zipmap [{ k := [], v := [1, 2], free := [9, 9, 9] }, { k := [107], v := [], free := [] }]).WF := by
+  refine ⟨by decide, by decide +kernel⟩
+
+/-- an intset of width 8 at both ends of its range -/
+example : (Compact.intset 8 [-9223372036854775808, 9223372036854775807, -1]).WF := by
+  refine ⟨by decide, ?_, by decide⟩
+  intro v hv
+  simp only [List.mem_cons, List.not_mem_nil, or_false] at hv
+  rcases hv with rfl | rfl | rfl <;> simp [widthFits]
+
+/-- a quicklist of two nodes, the count written in the 14-bit form -/
+example : qlWF .b14 [⟨.raw .b6 (serZiplist [.int false .i8 (-128)]), [.int false .i8 (-128)]⟩,
+    ⟨.raw .b32 (serZiplist []), []⟩] := by
+  refine ⟨⟨by decide, by decide⟩, ?_⟩
+  intro n hn
+  simp only [List.mem_cons, List.not_mem_nil, or_false] at hn
+  rcases hn with rfl | rfl
+  · exact ⟨⟨by decide, by decide⟩, ⟨by decide +kernel, by decide +kernel⟩, rfl⟩
+  · exact ⟨⟨by decide, by decide⟩, ⟨by decide +kernel, by decide +kernel⟩, rfl⟩
+
+/-- a type-5 sorted set whose member is a 16-bit integer string and whose score is a NaN with payload; a hash whose
+    field is LZF-compressed -/
+example : plainOk pfNone (.zset2 .b14 [(.int16 [255, 127], le64 0x7FF8000000000055)]) ∧
+    plainOk pfNone (.hash .b6 [(.lzf .b6 .b6 [.lit [120], .ref 1 5], .int8 [128])]) := by
+  refine ⟨⟨⟨by decide, by decide⟩, ?_⟩, ⟨⟨by decide, by decide⟩, ?_⟩⟩
+  · intro p hp
+    simp only [List.mem_singleton] at hp; subst hp
+    exact ⟨by simp [strOkC], by decide +kernel⟩
+  · intro p hp
+    simp only [List.mem_singleton] at hp; subst hp
+    refine ⟨⟨by decide +kernel, by decide +kernel, by decide +kernel, by decide +kernel, ?_⟩, by simp [strOkC]⟩
+    simp [Spec.Rdb.toksOk, Spec.Rdb.tokOk, Spec.Rdb.expandTok, Spec.Rdb.copyFrom]
+
+/-- a file: two databases, an expiry of 2^63+5 ms, an integer-looking key, a hash and a sorted set with −0 and NaN
+    (codec: the artificial one of the `FloatText` example; chunk limit 1000 bytes) -/
+def exFmt : UInt64 → Bytes := le64
+def exObjs : List Obj :=
+  [{ db := 0, key := [49, 50, 55], expireAt := 9223372036854775813, val := .hash [([102], [45, 49, 50, 57])] },
+   { db := 0, key := [], expireAt := 0, val := .zset [([109], 0x8000000000000000), ([110], 0x7FF8000000000001)] },
+   { db := 300, key := [107], expireAt := 1, val := .list [[], [48, 48, 55]] }]
+
+example : ∀ o ∈ exObjs, ObjOk exFmt 1000 o := by
+  intro o ho
+  simp only [exObjs, List.mem_cons, List.not_mem_nil, or_false] at ho
+  rcases ho with rfl | rfl | rfl
+  · exact ⟨⟨by decide, by decide⟩, by decide, by decide, by decide, by decide +kernel⟩
+  · exact ⟨⟨by decide, by decide⟩, by decide, by decide, by decide, by decide +kernel⟩
+  · exact ⟨⟨by decide, by decide⟩, by decide, by decide, by decide, by decide +kernel⟩
+
 end RSVerif.Properties.C12
